@@ -332,19 +332,28 @@ def routeCtl (tbl : Control.Table) (st : NodeSt) (ct : Term) (payload : Option T
   | .error _ => st
 
 /-- a pass-through body whose control term decodes and parses: the result carries exactly that message and the decoded
-payload (or none when nothing follows the control term) -/
+payload (or none when nothing follows the control term); bytes after the payload term make the whole frame an
+`Error::Decode` (`TrailingData`) -/
 theorem classify_pass (x : Ext) (tbl : Control.Table) (r rest : Bytes) (ct : Term) (m : Control.Msg)
     (hd : decodeTrailing x r = .ok (ct, rest)) (hm : Control.parse tbl ct = .ok m) :
     (rest = [] → classify x tbl (112 :: r) = .ok (m, none)) ∧
-    (∀ p rr, rest ≠ [] → decodeTrailing x rest = .ok (p, rr) → classify x tbl (112 :: r) = .ok (m, some p)) := by
-  constructor
+    (∀ p, rest ≠ [] → decodeTrailing x rest = .ok (p, []) → classify x tbl (112 :: r) = .ok (m, some p)) ∧
+    (∀ p rr, rest ≠ [] → rr ≠ [] → decodeTrailing x rest = .ok (p, rr) → classify x tbl (112 :: r) = .error .decode) := by
+  refine ⟨?_, ?_, ?_⟩
   · intro h0
     subst h0
     simp [classify, hd, hm]
-  · intro p rr h0 hp
+  · intro p h0 hp
     cases rest with
     | nil => exact absurd rfl h0
     | cons a t => simp [classify, hd, hm, hp]
+  · intro p rr h0 h1 hp
+    cases rest with
+    | nil => exact absurd rfl h0
+    | cons a t =>
+      cases rr with
+      | nil => exact absurd rfl h1
+      | cons b u => simp [classify, hd, hm, hp]
 
 /-- the errors `classify` can give -/
 theorem classify_error_cases (x : Ext) (tbl : Control.Table) (body : Bytes) (e : RxErr)
@@ -367,6 +376,7 @@ theorem classify_error_cases (x : Ext) (tbl : Control.Table) (body : Bytes) (e :
             · cases h; simp
             · cases h; simp
             · cases h
+            · cases h; simp
 
 theorem survivable_iff (x : Ext) (tbl : Control.Table) (body : Bytes) :
     Survivable x tbl body ↔ classify x tbl body ≠ .error .empty ∧ classify x tbl body ≠ .error .panic := by
